@@ -214,6 +214,24 @@ impl Property for C03 {
         }
         for _ in 0..rng.range(1, if thorough { 8 } else { 4 }) {
             let n_valid = rng.below(4);
+            // a third of the crafted entries re-use an entry this replica has already verified and
+            // accepted (same author, key, content, timestamp — and therefore the same signatures) with one
+            // field changed afterwards: anything that remembers "these signatures were fine" is exposed
+            let replayed: Option<(usize, Vec<u8>, Option<usize>, u64)> = {
+                let puts: Vec<_> = ops.iter().filter_map(|o| match o { Op::Put { a, key, c, ts } => Some((*a, key.clone(), *c, *ts)), _ => None }).collect();
+                if !puts.is_empty() && rng.chance(1, 3) { Some(rng.pick(&puts).clone()) } else { None }
+            };
+            if let Some((a, key, c, ts)) = replayed {
+                ops.push(Op::Attack {
+                    a, key, c, ts,
+                    tamper: *rng.pick(&[Tamper::FieldTs, Tamper::FieldTs, Tamper::FieldKey, Tamper::FieldHash, Tamper::FieldLen, Tamper::FieldAuthor]),
+                    pos: rng.below(n_valid + 1),
+                    n_valid,
+                    have_local: rng.chance(1, 2),
+                    two_parts: rng.chance(1, 3),
+                });
+                continue;
+            }
             ops.push(Op::Attack {
                 a: rng.below(3),
                 key: gen_key(rng),
